@@ -17,6 +17,7 @@ from .cfun import GenError
 FIELDS = {"allocation": "allocation", "allocation_end": "allocationEnd", "allocator": "allocator"}
 ATOMICS = {"head": "head", "tail": "tail"}
 CMP = {"<": "<", "<=": "≤", ">": ">", ">=": "≥"}
+BUF_FIELDS = {"buffer": ("b.buffer", "ptr"), "capacity": ("b.capacity", "size")}
 
 
 def camel(n):
@@ -29,8 +30,9 @@ def _is_ptr(node):
 
 
 class Tr:
-    def __init__(self, struct_param):
+    def __init__(self, struct_param, buf_param=None):
         self.sp = struct_param
+        self.bp = buf_param   # name of a `const struct aws_byte_buf *` parameter (s_buf_belongs_to_pool), or None
         self.locals = {}      # C name -> (lean name, kind)
 
     def member(self, node):
@@ -40,6 +42,13 @@ class Tr:
         if not (node.get("isArrow") and base.get("kind") == "DeclRefExpr" and base["referencedDecl"]["name"] == self.sp):
             raise GenError("member access not of the form ring_buf->field")
         return node["name"]
+
+    @staticmethod
+    def _base_name(node):
+        base = node["inner"][0]
+        while base.get("kind") in ("ImplicitCastExpr", "ParenExpr"):
+            base = base["inner"][0]
+        return base.get("referencedDecl", {}).get("name") if base.get("kind") == "DeclRefExpr" else None
 
     def expr(self, n):
         k = n.get("kind")
@@ -54,6 +63,10 @@ class Tr:
             if nm in self.locals:
                 return self.locals[nm]
             raise GenError(f"reference to unknown name {nm}")
+        if k == "MemberExpr" and self.bp is not None and self._base_name(n) == self.bp:
+            if not n.get("isArrow") or n["name"] not in BUF_FIELDS:
+                raise GenError(f"unsupported access buf->{n.get('name')}")
+            return BUF_FIELDS[n["name"]]
         if k == "MemberExpr":
             f = self.member(n)
             if f not in FIELDS:
@@ -89,6 +102,11 @@ class Tr:
             b, kb = self.expr(n["inner"][1])
             if op in ("&&", "||"):
                 return (f"({self.as_bool(a, ka)} {op} {self.as_bool(b, kb)})", "bool")
+            if op == "+" and ka == "ptr" and kb == "size":
+                # pointer + size_t count of bytes (uint8_t *): an address; the model's addresses do not wrap (DESIGN 6)
+                if "uint8_t" not in n["inner"][0].get("type", {}).get("qualType", ""):
+                    raise GenError("pointer arithmetic on something other than uint8_t *")
+                return (f"({a} + {b})", "ptr")
             if ka != "ptr" or kb != "ptr":
                 raise GenError(f"comparison {op} of non-pointers")
             if op in CMP:
@@ -164,6 +182,41 @@ def check_size_returns(repo, inc):
                                    f"({e['inner'][0]['type']['qualType']}) through the {rt[0]}-bit return type `{rq}`: sizes are truncated")
 
 
+def release_shape(repo, inc):
+    """`aws_ring_buffer_release` must contain exactly one atomic store, to &ring_buffer->tail, of `buf->buffer + buf->capacity`;
+    returns that expression translated"""
+    src = os.path.join(repo, "source", "ring_buffer.c")
+    fns = cfun.dump_functions(f'#include "{src}"\n', "aws_ring_buffer_release", inc + ["-I" + os.path.join(repo, "source")])
+    if "aws_ring_buffer_release" not in fns:
+        raise GenError("aws_ring_buffer_release not found")
+    fn = fns["aws_ring_buffer_release"]
+    ps = [p["name"] for p in fn["inner"] if p.get("kind") == "ParmVarDecl"]
+    if len(ps) != 2:
+        raise GenError("unexpected parameter list of aws_ring_buffer_release")
+    stores = []
+    for node in _walk(fn):
+        if node.get("kind") != "CallExpr":
+            continue
+        callee = node["inner"][0]
+        while callee.get("kind") in ("ImplicitCastExpr", "ParenExpr"):
+            callee = callee["inner"][0]
+        if callee.get("referencedDecl", {}).get("name", "").startswith("aws_atomic_store_ptr"):
+            stores.append(node)
+    if len(stores) != 1:
+        raise GenError(f"aws_ring_buffer_release performs {len(stores)} atomic pointer stores, expected exactly one (tail)")
+    args = stores[0]["inner"][1:]
+    a = args[0]
+    while a.get("kind") in ("ImplicitCastExpr", "ParenExpr", "CStyleCastExpr"):
+        a = a["inner"][0]
+    if not (a.get("kind") == "UnaryOperator" and a.get("opcode") == "&" and a["inner"][0].get("kind") == "MemberExpr"
+            and a["inner"][0].get("name") == "tail" and Tr._base_name(a["inner"][0]) == ps[0]):
+        raise GenError("aws_ring_buffer_release stores to something other than &ring_buffer->tail")
+    e, kd = Tr(ps[0], ps[1]).expr(args[1])
+    if kd != "ptr":
+        raise GenError("aws_ring_buffer_release stores a non-pointer")
+    return e
+
+
 def generate(repo, cfg_inc):
     inc = ["-I" + os.path.join(repo, "include"), "-I" + cfg_inc]
     check_size_returns(repo, inc)
@@ -184,6 +237,16 @@ def generate(repo, cfg_inc):
     if len(ep) != 1:
         raise GenError("unexpected parameter list of aws_ring_buffer_is_empty")
     b3 = Tr(ep[0]).body(emp)
+    src = os.path.join(repo, "source", "ring_buffer.c")
+    sfn = cfun.dump_functions(f'#include "{src}"\n', "s_buf_belongs_to_pool", inc + ["-I" + os.path.join(repo, "source")])
+    if "s_buf_belongs_to_pool" not in sfn:
+        raise GenError("s_buf_belongs_to_pool not found in source/ring_buffer.c")
+    bel = sfn["s_buf_belongs_to_pool"]
+    bp = [p["name"] for p in bel["inner"] if p.get("kind") == "ParmVarDecl"]
+    if len(bp) != 2:
+        raise GenError("unexpected parameter list of s_buf_belongs_to_pool")
+    b4 = Tr(bp[0], bp[1]).body(bel)
+    rel = release_shape(repo, inc)
     text = f"""/-! GENERATED by gen/ring_gen.py from include/aws/common/ring_buffer.inl — do not edit.
 Pointers are `Nat` addresses, NULL = 0. -/
 namespace AwsVerif.Gen.Ring
@@ -208,6 +271,20 @@ def isValid (rb : RB) : Bool :=
 /-- `aws_ring_buffer_is_empty` -/
 def isEmpty (rb : RB) : Bool :=
 {b3}
+
+/-- what a `struct aws_byte_buf *` handed to release / belongs_to_pool gives access to -/
+structure Buf where
+  buffer : Nat
+  capacity : Nat
+
+/-- `s_buf_belongs_to_pool` (source/ring_buffer.c; the precondition of `aws_ring_buffer_release` and the result of
+`aws_ring_buffer_buf_belongs_to_pool`) -/
+def bufBelongsToPool (rb : RB) (b : Buf) : Bool :=
+{b4}
+
+/-- the address `aws_ring_buffer_release` stores to `tail` -/
+def releaseTail (b : Buf) : Nat :=
+  {rel}
 
 end AwsVerif.Gen.Ring
 """
